@@ -308,6 +308,7 @@ def run_unit(unit, tier='quick', tag='main', solver=None):
         trusted = trusted_scan(text)
         allow = load_allow()
         forced_names = set(force) | set(info[f].get('src_name') for f in force if f in info)
+        forced_names |= set('%s_init' % n for n in list(forced_names) if n)   # static-to-fn functions are named <STATIC>_init
         forced_names |= set(fi.get('src_name') for fi in info.values() if fi.get('imported'))
         unknown = [t for t in trusted if t not in allow and not (t.startswith('external_body fn ') and t.split()[-1] in forced_names)]
         if unknown:
